@@ -204,6 +204,16 @@ impl Allocator {
     #[cfg(feature = "gc_stress")]
     self.collect_garbage_with_value(context, reference);
 
+    #[cfg(feature = "verif")]
+    match crate::verif::gc_decide() {
+      crate::verif::GcDecision::Natural => (),
+      crate::verif::GcDecision::Force => {
+        self.collect_garbage_with_value(context, reference);
+        return reference;
+      },
+      crate::verif::GcDecision::Suppress => return reference,
+    }
+
     if self.bytes_allocated > self.next_gc {
       self.collect_garbage_with_value(context, reference);
     }
@@ -233,6 +243,16 @@ impl Allocator {
 
     #[cfg(feature = "gc_stress")]
     self.collect_garbage_with_value(context, obj);
+
+    #[cfg(feature = "verif")]
+    match crate::verif::gc_decide() {
+      crate::verif::GcDecision::Natural => (),
+      crate::verif::GcDecision::Force => {
+        self.collect_garbage_with_value(context, obj);
+        return obj;
+      },
+      crate::verif::GcDecision::Suppress => return obj,
+    }
 
     if self.bytes_allocated > self.next_gc {
       self.collect_garbage_with_value(context, obj);
@@ -276,6 +296,9 @@ impl Allocator {
     }
 
     if context.can_collect() {
+      #[cfg(feature = "verif")]
+      crate::verif::note_collection(self.temp_roots.len());
+
       self.trace_root(context);
       self.temp_roots.iter().for_each(|root| {
         self.trace(&**root);
@@ -353,6 +376,13 @@ impl Allocator {
   fn sweep_obj_heap(&mut self) -> usize {
     #[cfg(feature = "gc_stress")]
     return self.sweep_obj_full();
+
+    #[cfg(all(feature = "verif", not(feature = "gc_stress")))]
+    match crate::verif::sweep_kind() {
+      1 => return self.sweep_obj_nursery(),
+      2 => return self.sweep_obj_full(),
+      _ => (),
+    }
 
     #[cfg(not(feature = "gc_stress"))]
     if self.gc_count % 10 == 0 {
@@ -534,6 +564,55 @@ fn debug_free_obj(obj: &ObjectHandle) {
     obj.size(),
     DebugWrapDyn(obj, 1)
   )
+}
+
+#[cfg(feature = "verif")]
+impl Allocator {
+  /// A summary of this allocator's bookkeeping
+  pub fn verif_stats(&self) -> crate::verif::HeapStats {
+    crate::verif::HeapStats {
+      bytes_allocated: self.bytes_allocated,
+      next_gc: self.next_gc,
+      gc_count: self.gc_count,
+      heap: self.heap.len(),
+      obj_heap: self.obj_heap.len(),
+      nursery: self.nursery_obj_heap.len(),
+      temp_roots: self.temp_roots.len(),
+    }
+  }
+
+  /// Every block currently owned by this allocator
+  pub fn verif_blocks(&self) -> Vec<crate::verif::HeapBlock> {
+    let mut blocks = Vec::with_capacity(self.heap.len() + self.obj_heap.len() + self.nursery_obj_heap.len());
+    for item in &self.heap {
+      blocks.push(crate::verif::HeapBlock {
+        addr: item.loc() as usize,
+        size: item.size(),
+        kind: 255,
+      });
+    }
+    for obj in self.obj_heap.iter().chain(self.nursery_obj_heap.iter()) {
+      blocks.push(crate::verif::HeapBlock {
+        addr: obj.verif_addr(),
+        size: obj.size(),
+        kind: obj.kind() as u8,
+      });
+    }
+    blocks
+  }
+
+  /// Every entry of the string intern table
+  pub fn verif_intern(&self) -> Vec<crate::verif::InternEntry> {
+    self
+      .intern_cache
+      .iter()
+      .map(|(key, value)| crate::verif::InternEntry {
+        key_addr: key.as_ptr() as usize,
+        key_len: key.len(),
+        obj_addr: value.verif_addr(),
+      })
+      .collect()
+  }
 }
 
 impl Default for Allocator {
